@@ -305,6 +305,8 @@ def run_atheris(task, res):
 
 
 def run_task(task):
+    from vlib import specgen as _sg
+    _sg.set_tier(task.get("_tier"))
     res = TaskResult()
     try:
         if task.get("kind") == "atheris":
